@@ -650,6 +650,47 @@ def same_key_other_certificate_case(tag, kind, order, storage):
     return results, lr.errors, pending, pGhost
 
 
+def fetch_history_case(tag, kind, mode, storage):
+    """ONE instance and a valid chain.  mode 'silent' / 'nack': the certificate of the signing key cannot be fetched at first
+    (the packet is refused), then it can: the same packet must now be accepted - an earlier failed fetch is not a verdict
+    about the chain.  mode 'concurrent': two packets under the same not-yet-cached certificate are validated at the same
+    time: both are owed the verdict of the chain."""
+    rng = random.Random('c14-fetch-' + tag)
+    A = Pki(rng, 3, 0, tag + 'F')
+    c = A.levels['alice'][A.depth - 1]
+    p1 = A.data
+    p2 = make_elem([comp('s'), comp('data'), comp('alice'), comp('second')], b'2', c.holds, list(c.name))
+    lr = LoopRun()
+    results = []
+    try:
+        async def go():
+            v = build_lvs_validator(A.schema, A.world, A.anchor, storage)[0] if kind == 'lvs' else build_cascade(A.world, A.anchor, storage)[0]
+            ref = A.ref if kind == 'lvs' else None
+
+            async def one(pk, e):
+                try:
+                    got = await validate(v, e)
+                except Exception as ex:   # noqa - reported
+                    got = ex
+                return pk, got
+            if mode == 'concurrent':
+                exp = {pk: oracle_accept(A.world, ref, A.anchor, e) for pk, e in (('p1', p1), ('p2', p2))}
+                for pk, got in await asyncio.gather(one('p1', p1), one('p2', p2)):
+                    results.append(('A', pk + '@together', got, exp[pk]))
+                return
+            A.world.put(c, mode)
+            exp = oracle_accept(A.world, ref, A.anchor, p1)
+            results.append(('A', 'p1@unfetchable', (await one('p1', p1))[1], exp))
+            A.world.put(c, 'ok')
+            for pk, e in (('p1', p1), ('p2', p2)):
+                exp = oracle_accept(A.world, ref, A.anchor, e)
+                results.append(('A', pk + '@fetchable-again', (await one(pk, e))[1], exp))
+        lr.run(go())
+    finally:
+        pending = lr.close()
+    return results, lr.errors, pending, p1
+
+
 # ------------------------------------------------------------------------------------------------- driver
 
 def pki_params(idx):
@@ -739,6 +780,20 @@ def run_independence(idx, seed):
                                         pk, got, exp, list(order), storage), inp))
                 if errors:
                     out.append(('C14:unhandled-error-in-loop:' + kind, '%s' % errors[:2], inp))
+        # one instance: an unfetchable certificate that becomes fetchable; two validations at the same time
+        for mode in ('silent', 'nack', 'concurrent'):
+            for storage in ('default', 'fresh'):
+                tag = 'f%d-%s-%s-%s-%d' % (idx, kind, mode, storage, seed)
+                results, errors, pending, p1 = fetch_history_case(tag, kind, mode, storage)
+                evals += len(results)
+                hashes.add(L.case_hash('fetch', kind, mode, storage, p1.wire))
+                inp = {'part': 'fetch', 'idx': idx, 'seed': seed, 'kind': kind, 'mode': mode, 'storage': storage}
+                for inst, pk, got, exp in results:
+                    if got is not exp:
+                        out.append(('C14:verdict-depends-on-history:fetch-%s:%s' % ('schedule' if mode == 'concurrent' else 'failure', kind),
+                                    'packet %s: verdict %r, oracle %r (%s, storage %s)' % (pk, got, exp, mode, storage), inp))
+                if errors:
+                    out.append(('C14:unhandled-error-in-loop:' + kind, '%s' % errors[:2], inp))
     return out, evals, hashes
 
 
@@ -779,6 +834,13 @@ def replay(rec: dict) -> tuple[bool, str]:
     if inp['part'] == 'ghost':
         tag = 'g%d-%s-%s-%s-%d' % (inp['idx'], inp['kind'], '-'.join(inp['order']), inp['storage'], inp['seed'])
         results, errors, pending, _ = same_key_other_certificate_case(tag + '-replay', inp['kind'], tuple(inp['order']), inp['storage'])
+        bad = [(pk, repr(got), exp) for inst, pk, got, exp in results if got is not exp]
+        if bad or errors:
+            return False, 'verdict != oracle for %r %r' % (bad, errors)
+        return True, 'all verdicts equal the oracle'
+    if inp['part'] == 'fetch':
+        tag = 'f%d-%s-%s-%s-%d' % (inp['idx'], inp['kind'], inp['mode'], inp['storage'], inp['seed'])
+        results, errors, pending, _ = fetch_history_case(tag + '-replay', inp['kind'], inp['mode'], inp['storage'])
         bad = [(pk, repr(got), exp) for inst, pk, got, exp in results if got is not exp]
         if bad or errors:
             return False, 'verdict != oracle for %r %r' % (bad, errors)
